@@ -98,7 +98,8 @@ def rule_time_sums(ctx):
 def rule_exit_machine(ctx):
     tu = cfront.load_tu('rebound.c')
     fn = tu.func('reb_check_exit')
-    conds = ancestors_conditions(fn)
+    from . import pathcond
+    conds = pathcond.conditions(fn)      # enclosing ifs, else branches (negated) and preceding early exits, in normal form
     n = 0
     samples = []
     # R08.2/R08.3: every assignment to r->dt is under exact_finish_time==1 and preceded by a synchronise in its block
